@@ -15,7 +15,13 @@ Sub-checks
                 level unit, change of prefix inside one level unit (B<->dB, Np<->cNp<->dNp)
   log-direct    B <-> Np directly, compared with the composition through the amplitude ratio and the power ratio
   log-direct-rt B -> Np -> B and Np -> B -> Np
-  level-sum / level-diff   a+b, a-b (a>b) in every bel/decibel-type unit
+  level-sum / level-diff   a+b, a-b (a>b) in every bel/decibel-type unit, each evaluated twice on the same two
+                objects: both evaluations must give the power sum and a, b must still report their levels
+  level-seq     a+b, a-b, b+a, a+b on one pair of objects (a>b), every result against the formula
+  <sub>-unc     every scalar forward case of temp, log-lin, log-frac, log-log, log-direct once more with an absolute
+                (0.25) and once with a relative (5 %) uncertainty attached to the quantity: same oracle, same tolerance
+                (the formulas of the statement do not depend on an uncertainty being present)
+  temp-array / log-lin-array   the same conversions element-wise on an array, asked twice
 
 Not demanded (left out on purpose)
   * level-unit pairs that the documentation does not list (dBuA<->dBA, dBW<->dBSWL, dB<->dBm ...);
@@ -76,6 +82,10 @@ T_MORE = [37, 451.5, 5778]
 LEVEL_MORE = [-120, -3, 1, 10, 60]
 LIN_MORE = [1e-6, 7.3, 1e6]
 SUM_MORE = [10, 30]
+UNC_SUBS = ('temp', 'log-lin', 'log-frac', 'log-log', 'log-direct')
+UNC_KINDS = ('abse', 'rele')
+UNC_ABSE = 0.25          # absolute uncertainty attached in the *-unc cases
+UNC_RELE = 5.0           # relative uncertainty (percent)
 
 _CASES = {}
 _PREF = None
@@ -258,6 +268,11 @@ def cases(tier, seed):
         if c not in seen:
             seen.add(c)
             out.append(c)
+            # the formulas do not depend on whether the quantity carries an uncertainty: every scalar forward
+            # conversion is asked again with an absolute and with a relative uncertainty attached
+            if c[0] in UNC_SUBS:
+                for kind in UNC_KINDS:
+                    add(c[0] + '-unc', c[1], c[2], c[3], kind)
     # temperatures
     tunits = ['K', 'Cel', 'degF', 'degR'] + [p + 'K' for p in _PREF['K']]
     for u in tunits:
@@ -312,7 +327,8 @@ def cases(tier, seed):
                 for s, t in ((u, v), (v, u)):
                     add('log-direct', s, t, x)
                     add('log-direct-rt', s, t, x)
-    # level arithmetic
+    # level arithmetic (every sum/difference is evaluated twice on the same two objects; for x>y also the
+    # sequence a+b, a-b, b+a, a+b on one pair of objects)
     for b in ['B'] + list(LEVELS):
         for u in lspell(b):
             for x in SUM_VALUES_:
@@ -320,6 +336,7 @@ def cases(tier, seed):
                     add('level-sum', u, x, y)
                     if x > y:
                         add('level-diff', u, x, y)
+                        add('level-seq', u, x, y)
     _CASES[key] = out
     return out
 
@@ -347,9 +364,17 @@ def _relclass(got, exp, scale=0.0):
     return "1e%d" % math.ceil(math.log10(d))
 
 
-def _value(x, u, v):
+def _quantity(x, u, unc=None):
     from scinumtools.units import Quantity
-    return Quantity(x, u).value(v)
+    if unc == 'abse':
+        return Quantity(x, u, abse=UNC_ABSE)
+    if unc == 'rele':
+        return Quantity(x, u, rele=UNC_RELE)
+    return Quantity(x, u)
+
+
+def _value(x, u, v, unc=None):
+    return _quantity(x, u, unc).value(v)
 
 
 def _array_twice(xs, u, v):
@@ -371,19 +396,23 @@ def _there_and_back(x, u, v):
     return (mid, q.value(), u if q.units() == spelled else q.units())
 
 
-def _via(x, u, mid, v):
-    from scinumtools.units import Quantity
-    q = Quantity(x, u)
+def _via(x, u, mid, v, unc=None):
+    q = _quantity(x, u, unc)
     q.to(mid)
     q.to(v)
     return q.value()
 
 
-def _arith(op, u, x, y, du):
+def _arith(ops, u, x, y, du):
+    """evaluate the operations of `ops` one after the other on the SAME two objects a, b; returns the results read in
+    decibels and what a and b report afterwards"""
     from scinumtools.units import Quantity
     a, b = Quantity(x, u), Quantity(y, u)
-    r = a + b if op == '+' else a - b
-    return (r.value(du), r.units())
+    res = []
+    for op in ops:
+        r = {'a+b': lambda: a + b, 'a-b': lambda: a - b, 'b+a': lambda: b + a}[op]()
+        res.append(r.value(du))
+    return (res, a.value(), b.value())
 
 
 def _tags(sub, u, v):
@@ -402,14 +431,25 @@ def _tags(sub, u, v):
     return t
 
 
-def check_case(c):
+def check_case(c, _unc=None):
     """Execute one case; return a failure record or None."""
     sub = c[0]
     rec = None
+    unc = None
+    if sub.endswith('-unc'):
+        # same case with an uncertainty attached: identical oracle, identical tolerance
+        unc = c[4]
+        rec = check_case((sub[:-4],) + tuple(c[1:4]), unc)
+        if rec is not None:
+            rec["sub"] = sub
+            rec["case"] = list(c)
+            rec["tags"] = sorted(set(rec["tags"]) | {"uncertainty=" + unc})
+        return rec
+    unc = _unc
     if sub == 'temp':
         _, u, v, x = c
         exp = float(t_from_kelvin(t_to_kelvin(x, u), v))
-        o = outcome(_value, x, u, v)
+        o = outcome(_value, x, u, v, unc)
         tol = (REL_ID, REL_ID * t_scale(v)) if u == v else (REL, REL * t_scale(v))
         if o[0] == 'err':
             rec = failure(sub, list(c), exp, list(o), _tags(sub, u, v), "raises:" + o[1] + ":" + _short(o[2]))
@@ -462,7 +502,7 @@ def check_case(c):
                               "round-trip-differs:rel~" + _relclass(o[1][1], exp))
         else:
             exp = linear_to_level(x, uu, vv) if to_level else level_to_linear(x, uu, vv)
-            o = outcome(_value, x, u, v)
+            o = outcome(_value, x, u, v, unc)
             pv = 10.0 ** SI[l_split(vv)[0]]
             absol = 1e-9 / pv if to_level else 0.0     # 1e-9 bel-or-neper-sized absolute slack on levels
             if o[0] == 'err':
@@ -472,7 +512,7 @@ def check_case(c):
     elif sub == 'log-log':
         _, u, v, x = c
         exp = level_to_level(x, u, v)
-        o = outcome(_value, x, u, v)
+        o = outcome(_value, x, u, v, unc)
         rel = REL_ID if u == v else REL
         absol = 1e-9 / 10.0 ** SI[l_split(v)[0]]
         if u == v:
@@ -485,7 +525,7 @@ def check_case(c):
         _, u, v, x = c
         exp = level_to_level(x, u, v)
         absol = 1e-9 / 10.0 ** SI[l_split(v)[0]]
-        o = outcome(_value, x, u, v)
+        o = outcome(_value, x, u, v, unc)
         if o[0] == 'err':
             rec = failure(sub, list(c), exp, list(o), _tags(sub, u, v), "raises:" + o[1] + ":" + _short(o[2]))
         elif not _close(o[1], exp, REL, absol):
@@ -493,7 +533,7 @@ def check_case(c):
         else:
             # the same conversion through the amplitude ratio and through the power ratio must agree with it
             for mid in ('AR', 'PR'):
-                o2 = outcome(_via, x, u, mid, v)
+                o2 = outcome(_via, x, u, mid, v, unc)
                 if o2[0] == 'err':
                     rec = failure(sub, list(c), exp, list(o2), _tags(sub, u, v) + ["via=" + mid],
                                   "raises:" + o2[1] + ":" + _short(o2[2]))
@@ -511,19 +551,35 @@ def check_case(c):
         elif o[1][2] != u or not _close(o[1][1], exp, REL, 1e-9):
             rec = failure(sub, list(c), [exp, u], [o[1][1], o[1][2]], _tags(sub, u, v),
                           "round-trip-differs:rel~" + _relclass(o[1][1], exp))
-    elif sub in ('level-sum', 'level-diff'):
+    elif sub in ('level-sum', 'level-diff', 'level-seq'):
         _, u, x, y = c
         p, b = l_split(u)
         du = 'd' + b                                   # the result is read in decibels, as the statement puts it
         s = 10.0 * 10.0 ** SI[p]                       # decibels per unit u
-        lin = 10.0 ** (x * s / 10) + (1 if sub == 'level-sum' else -1) * 10.0 ** (y * s / 10)
-        exp = 10 * math.log10(lin)
-        o = outcome(_arith, '+' if sub == 'level-sum' else '-', u, x, y, du)
+
+        def power(sign):
+            return 10 * math.log10(10.0 ** (x * s / 10) + sign * 10.0 ** (y * s / 10))
+        ops = {'level-sum': ['a+b', 'a+b'], 'level-diff': ['a-b', 'a-b'],
+               'level-seq': ['a+b', 'a-b', 'b+a', 'a+b']}[sub]
+        exp = [power(-1 if op == 'a-b' else 1) for op in ops]
+        o = outcome(_arith, ops, u, x, y, du)
         tags = ["unit=" + b] + (["prefixed"] if p else [])
         if o[0] == 'err':
             rec = failure(sub, list(c), exp, list(o), tags, "raises:" + o[1] + ":" + _short(o[2]))
-        elif not _close(o[1][0], exp, REL, 1e-9):
-            rec = failure(sub, list(c), exp, o[1][0], tags, "wrong-value:rel~" + _relclass(o[1][0], exp))
+        else:
+            res, aval, bval = o[1]
+            if not _close(res[0], exp[0], REL, 1e-9):
+                rec = failure(sub, list(c), exp[0], res[0], tags, "wrong-value:rel~" + _relclass(res[0], exp[0]))
+            else:
+                for i in range(1, len(ops)):
+                    if not _close(res[i], exp[i], REL, 1e-9):
+                        rec = failure(sub, list(c), dict(op=ops[i], position=i + 1, value=exp[i]),
+                                      dict(op=ops[i], position=i + 1, value=res[i]), tags + ["repeated-on-same-objects"],
+                                      "later-evaluation-differs:" + ops[i])
+                        break
+            if rec is None and not (_close(aval, float(x), REL_ID, 0.0) and _close(bval, float(y), REL_ID, 0.0)):
+                rec = failure(sub, list(c), [float(x), float(y)], [aval, bval], tags + ["repeated-on-same-objects"],
+                              "operand-level-changed")
     else:
         raise HarnessError("unknown sub-check %r" % (sub,))
     return rec
@@ -576,7 +632,7 @@ def replay(rec):
 def finish(total, tier, seed):
     h = total.hist
     subs = ['temp', 'temp-rt', 'log-lin', 'log-lin-rt', 'log-frac', 'log-log', 'log-direct', 'log-direct-rt',
-            'level-sum', 'level-diff']
+            'level-sum', 'level-diff', 'level-seq', 'temp-array', 'log-lin-array'] + [x + '-unc' for x in UNC_SUBS]
     per = {s: h.get(s + ":ok", 0) + h.get(s + ":fail", 0) for s in subs}
     empty = [s for s, n in per.items() if n == 0]
     if empty:
@@ -604,7 +660,9 @@ MANIFEST = dict(
          "and ln, both directions and there-and-back; the documented dBm/Hz fraction form; identity and prefix change of "
          "every level unit; the documented level<->level pairs; B<->Np directly against the composition through AR and "
          "PR; a+b and a-b (a>b) for every bel/decibel unit over {0,1,2,83,87}^2 (thorough 7 values) against the power "
-         "sum.  10 941 cases per quick run, 28 507 in the thorough tier, every one executed.",
+         "sum, each evaluated twice on the same objects, plus the sequence a+b, a-b, b+a, a+b on one pair; every scalar "
+         "forward conversion again with an absolute and a relative uncertainty attached; array conversions asked twice. "
+         "22 900 cases per quick run, about 6e4 in the thorough tier, every one executed.",
     note="Numerical agreement to 1e-9 relative (identity 1e-12), not bit-exact; magnitudes are a finite alphabet of "
          "representatives, other magnitudes rely on the formulas being value-independent; prefix `da`, undocumented "
          "level pairs and compound expressions beyond X/Hz are outside the alphabet; oracle formulas are hand-written "
